@@ -897,11 +897,20 @@ def dates2(reg):
         'YM': ('months_beyond_years', f'implies({le}, is_int(result) and 0 <= I(result) and I(result) < 12 and '
                f'({M} - I(result)) % 12 == 0 and {M} - I(result) >= 0)'),
     }
+    # one query per conjunct: the conjunction of the three month clauses is at the edge of the solver's budget
+    split = {
+        'M': {'months_nonnegative': f'implies({le}, is_int(result) and I(result) >= 0)',
+              'months_complete': f'implies({le}, is_int(result) and ' + complete.format(k='I(result)') + ')',
+              'months_maximal': f'implies({le}, is_int(result) and not ' + complete.format(k='I(result) + 1') + ')'},
+        'Y': {'years_nonnegative': f'implies({le}, is_int(result) and I(result) >= 0)',
+              'years_complete': f'implies({le}, is_int(result) and ' + complete.format(k='12 * I(result)') + ')',
+              'years_maximal': f'implies({le}, is_int(result) and not ' + complete.format(k='12 * (I(result) + 1)') + ')'},
+    }
     for unit, (cname, clause) in clauses.items():
         reg.add(Contract(
             f'_datedif/{unit}', 'runtime:_datedif', {**SELF, 'date_start': 'datetime', 'date_end': 'datetime', 'mode': 'str'},
             self_class='ExcelInPython', requires=[f'S(mode) == "{unit}"'],
-            ensures={'reversed': f'implies(not ({le}), result == "#NUM!")', cname: clause},
+            ensures={'reversed': f'implies(not ({le}), result == "#NUM!")', **split.get(unit, {cname: clause})},
             notes='DATEDIF: D complete days, M complete months (the largest k with start + k months <= end, compared as '
                   '(month index, day)), Y complete years (largest k with 12k months complete), YM months beyond whole '
                   'years; #NUM! when the interval is reversed. MD and YD are outside the property.'))
